@@ -17,8 +17,8 @@
 (*   print after; return | throw 7                                         *)
 (*                                                                         *)
 (* The host runs three steps on one context: eval(script), run_jobs,       *)
-(* eval(print "end").  One transition = one observable event or one        *)
-(* decision.  Limits:                                                      *)
+(* call of the script function epi (prints "end").  One transition = one  *)
+(* observable event or one decision.  Limits:                              *)
 (*  L  loop-iteration limit, per activation.  The property does not fix    *)
 (*     the exact boundary, so the model keeps a WINDOW: with h = loop      *)
 (*     heads already evaluated by the activation and e = loops it entered, *)
@@ -172,9 +172,9 @@ Sched(mm, lims) ==
                      fr == IF j.k = "act" THEN NewFrame(j.a, 2) ELSE [j.f EXCEPT !.d = 1, !.res = TRUE]
                  IN  {[mm EXCEPT !.queue = Tail(@), !.stack = <<fr>>]}
       [] mm.step = 3 ->
-            {IF c.fire # "" THEN [FireLimit(mm, c.fire, c, 1) EXCEPT !.step = 4]
+            {IF c.fire # "" THEN [FireLimit(mm, c.fire, c, 2) EXCEPT !.step = 4]
                             ELSE [Out(Note(mm, c), <<Ev(EvEnd, 0, 0)>>) EXCEPT !.comp[3] = "value:n:9", !.step = 4]
-               : c \in RecChoices(lims, 1)}
+               : c \in RecChoices(lims, 2)}      \* host call of a script function: frame + re-entry
       [] OTHER -> {}
 
 -----------------------------------------------------------------------------
